@@ -66,6 +66,15 @@ func compare(want, got *Result) *Diff {
 	if dup != "" {
 		return &Diff{"duplicate-series", "label set returned twice: " + dup}
 	}
+	for k, g := range gm {
+		seen := map[int64]struct{}{}
+		for _, p := range g.Pts {
+			if _, dup := seen[p.T]; dup {
+				return &Diff{"duplicate-point", fmt.Sprintf("%s has two samples at %s", k, msStr(p.T))}
+			}
+			seen[p.T] = struct{}{}
+		}
+	}
 	var missing, extra []string
 	for k := range wm {
 		if _, ok := gm[k]; !ok {
